@@ -648,8 +648,12 @@ func (fr *Frame) step(b *ssa.BasicBlock, ins ssa.Instruction, st *State, reach s
 		fr.bind(x, Val{S: ref})
 		vc.eng.closures[ref] = &closureInfo{fn: x.Fn.(*ssa.Function), bindings: x.Bindings, fr: fr}
 	case *ssa.Send:
-		// no blocking semantics
+		// no blocking semantics; with `noblock` the send is an obligation (locks.go)
+		vc.blockObl(fr, st, reach, x.Pos(), "channel send")
 	case *ssa.Select:
+		if x.Blocking {
+			vc.blockObl(fr, st, reach, x.Pos(), "select without default")
+		}
 		fr.selectStmt(x, st)
 	case *ssa.Go:
 		vc.trust("go statements: spawned goroutine effects are not part of the spawning thread's state")
@@ -750,6 +754,7 @@ func (fr *Frame) unop(b *ssa.BasicBlock, x *ssa.UnOp, st *State, reach string) {
 		fr.bind(x, Val{S: app("bvnot", v.S)})
 	case token.ARROW:
 		// channel receive: unconstrained value (no blocking semantics)
+		vc.blockObl(fr, st, reach, x.Pos(), "channel receive")
 		var et types.Type
 		if x.CommaOk {
 			et = x.Type().(*types.Tuple).At(0).Type()
